@@ -110,6 +110,11 @@ class Catalog:
         b = [sw.randint(2, 3) for _ in range(sw.choice([2, 3]))]
         if sw.random() < 0.3:
             b[sw.randrange(len(b))] = 1  # a singleton mode
+        r = sw.random()
+        if r < 0.08:
+            b = [sw.randint(2, 4)]  # a 1-way family
+        elif r < 0.16:
+            b = [2, sw.randint(1, 2), 2, sw.randint(2, 3)]  # a 4-way family
         if b == a:
             b[0] = 5 - b[0]
         return [a, b]
@@ -124,7 +129,11 @@ class Catalog:
         return steps
 
     def step_new_tensor(self, g, shape, zeros=0.2):
-        return {"op": "new_tensor", "operands": [], "k": [], "shape": list(shape), "data": enc(rand_array(g, shape, zeros=zeros)), "copy": g.random() < 0.7, "order": g.choice(["F", "F", "C"])}
+        st = {"op": "new_tensor", "operands": [], "k": [], "shape": list(shape), "data": enc(rand_array(g, shape, zeros=zeros)), "copy": g.random() < 0.7, "order": g.choice(["F", "F", "C"])}
+        if g.random() < 0.12:
+            st["data"] = enc(np.round(rand_array(g, shape, -4, 4, zeros=zeros)).astype(np.int64))
+            st["dtype"] = "int64"
+        return st
 
     def step_new_sptensor(self, g, shape):
         size = int(np.prod(shape))
@@ -132,7 +141,11 @@ class Catalog:
         lin = g.sample(range(size), nnz)
         subs = [list(int(v) for v in np.unravel_index(k, shape, order="F")) for k in lin]
         g.shuffle(subs)
-        return {"op": "new_sptensor", "operands": [], "k": [], "shape": list(shape), "subs": subs, "vals": [rnd(g) for _ in subs], "copy": g.random() < 0.7}
+        st = {"op": "new_sptensor", "operands": [], "k": [], "shape": list(shape), "subs": subs, "vals": [rnd(g) for _ in subs], "copy": g.random() < 0.7}
+        if g.random() < 0.12:
+            st["vals"] = [float(g.choice([-3, -2, -1, 1, 2, 3, 5])) for _ in subs]
+            st["dtype"] = "int64"
+        return st
 
     def step_new_ktensor(self, g, shape, r, nonneg=False):
         lo = 0.05 if nonneg else -1.0
